@@ -14,6 +14,8 @@ use crate::case::{Case, Violation};
 use crate::units::{unit_cases, Tier, World};
 use crate::worker::Progress;
 
+pub const HANG_SITE: &str = "watchdog: the case did not finish (3 s of CPU or 60 s of wall time in the run; 8 s of wall time on replay)";
+
 pub struct RunCfg {
     pub prop: String,
     pub seed: u64,
@@ -22,6 +24,9 @@ pub struct RunCfg {
     pub workers: u64,
     pub verif_dir: String,
     pub time_budget: Option<Duration>,
+    pub checkpoint: u64,
+    /// write the evidence file here instead of <verif_dir>/evidence (self-tests)
+    pub evidence_dir: Option<String>,
 }
 
 #[derive(Default)]
@@ -136,7 +141,8 @@ fn spawn_worker(cfg: &RunCfg, base: &str, w: u64, resume: Option<(u64, u64)>, ag
         .arg("--to").arg(cfg.units.to_string())
         .arg("--stride").arg(cfg.workers.to_string())
         .arg("--offset").arg(w.to_string())
-        .arg("--base").arg(base);
+        .arg("--base").arg(base)
+        .arg("--checkpoint").arg(cfg.checkpoint.to_string());
     if let Some((u, i)) = resume {
         cmd.arg("--resume-unit").arg(u.to_string()).arg("--resume-idx").arg(i.to_string());
     }
@@ -159,10 +165,26 @@ fn spawn_worker(cfg: &RunCfg, base: &str, w: u64, resume: Option<(u64, u64)>, ag
     let killed = Arc::new(std::sync::atomic::AtomicBool::new(false));
     let (stop2, killed2) = (stop.clone(), killed.clone());
     let wd = std::thread::spawn(move || {
+        // A case that makes no progress is a hang. Sync decoders cannot be step-counted, so the
+        // judge is the worker's own CPU time (robust against a loaded machine): 3 s of CPU on one
+        // case (typical case: well under a millisecond), or 60 s of wall time for a blocked one.
+        let cpu_ticks = |pid: u32| -> u64 {
+            std::fs::read_to_string(format!("/proc/{}/stat", pid))
+                .ok()
+                .and_then(|s| {
+                    let rest = s.rsplit(") ").next()?.to_string();
+                    let f: Vec<&str> = rest.split_whitespace().collect();
+                    // after the command name: state is field 0, utime is field 11, stime field 12
+                    Some(f.get(11)?.parse::<u64>().ok()? + f.get(12)?.parse::<u64>().ok()?)
+                })
+                .unwrap_or(0)
+        };
+        let hz = 100u64;
         let mut last = (u64::MAX, u64::MAX, u64::MAX);
         let mut since = Instant::now();
+        let mut cpu_at_change = cpu_ticks(pid);
         while !stop2.load(std::sync::atomic::Ordering::Relaxed) {
-            std::thread::sleep(Duration::from_millis(250));
+            std::thread::sleep(Duration::from_millis(100));
             if !std::path::Path::new(&prog_path).exists() {
                 continue;
             }
@@ -170,10 +192,14 @@ fn spawn_worker(cfg: &RunCfg, base: &str, w: u64, resume: Option<(u64, u64)>, ag
             if p != last {
                 last = p;
                 since = Instant::now();
-            } else if since.elapsed() > Duration::from_secs(20) && p.2 == 1 {
-                killed2.store(true, std::sync::atomic::Ordering::Relaxed);
-                unsafe { libc::kill(pid as i32, libc::SIGKILL) };
-                return;
+                cpu_at_change = cpu_ticks(pid);
+            } else if p.2 == 1 {
+                let cpu = cpu_ticks(pid).saturating_sub(cpu_at_change);
+                if cpu >= 3 * hz || since.elapsed() > Duration::from_secs(60) {
+                    killed2.store(true, std::sync::atomic::Ordering::Relaxed);
+                    unsafe { libc::kill(pid as i32, libc::SIGKILL) };
+                    return;
+                }
             }
             if let Some(d) = deadline {
                 if Instant::now() > d + Duration::from_secs(30) {
@@ -268,6 +294,8 @@ pub fn run_workers(cfg: &RunCfg) -> (Agg, HashSet<u64>, HashSet<u64>, HashSet<u6
             workers: cfg.workers,
             verif_dir: cfg.verif_dir.clone(),
             time_budget: cfg.time_budget,
+            checkpoint: cfg.checkpoint,
+            evidence_dir: cfg.evidence_dir.clone(),
         };
         handles.push(std::thread::spawn(move || {
             let world = World::new();
@@ -279,7 +307,7 @@ pub fn run_workers(cfg: &RunCfg) -> (Agg, HashSet<u64>, HashSet<u64>, HashSet<u6
                 }
                 // the worker died: which case was it running?
                 let (u, i, stage) = Progress::open(&format!("{}.progress", base)).get();
-                let (class, site) = if o.hang_killed { ("hang".to_string(), "watchdog: no progress for 20 s".to_string()) } else { classify_death(&o.status, &o.stderr) };
+                let (class, site) = if o.hang_killed { ("hang".to_string(), HANG_SITE.to_string()) } else { classify_death(&o.status, &o.stderr) };
                 let mut a = agg.lock().unwrap();
                 a.deaths += 1;
                 *a.counters.entry(format!("worker_death.{}", class)).or_insert(0) += 1;
@@ -298,7 +326,12 @@ pub fn run_workers(cfg: &RunCfg) -> (Agg, HashSet<u64>, HashSet<u64>, HashSet<u6
                         None => *a.counters.entry("skipped.worker_death".into()).or_insert(0) += 1,
                     }
                 }
+                let hangs = a.counters.get("worker_death.hang").copied().unwrap_or(0);
                 drop(a);
+                if hangs >= 12 {
+                    // every further hang costs seconds: enough evidence, stop this worker's share
+                    break;
+                }
                 resume = Some((u, i + 1));
                 if let Some(d) = deadline {
                     if Instant::now() > d {
@@ -386,7 +419,8 @@ pub fn write_evidence(cfg: &RunCfg, agg: &Agg, distinct: usize, scheds: usize, s
             "single-task executor: a deferred wake is indistinguishable from an immediate one for the future under test",
         ],
     });
-    let p = format!("{}/evidence/{}.json", cfg.verif_dir, cfg.prop);
-    let _ = std::fs::create_dir_all(format!("{}/evidence", cfg.verif_dir));
+    let edir = cfg.evidence_dir.clone().unwrap_or_else(|| format!("{}/evidence", cfg.verif_dir));
+    let p = format!("{}/{}.json", edir, cfg.prop);
+    let _ = std::fs::create_dir_all(&edir);
     std::fs::write(&p, serde_json::to_string_pretty(&ev).unwrap()).expect("write evidence");
 }
